@@ -268,3 +268,43 @@ Definition mutate_obj (h : eheap) (a c' : nat) : eheap :=
                                    if negb (Nat.eqb a 0) && Nat.eqb ad a then (k, c', ad) else (k, c, ad))
                    (att h x))
      (kl h) (vsz h).
+
+(* ------------------------------------------------------------------------------------------ *)
+(* DAGNode (bigtree/node/dagnode.py:573-600), on the DAG heap model of Heap/Dag.v (its names are
+   used qualified: both heap models define set_children, alloc, ...) *)
+From BT Require Heap.Dag.
+
+(* the connected part of the DAG: copy.deepcopy follows __parents as well as __children *)
+Fixpoint dgrow (s : Dag.dag) (fuel : nat) (acc : list id) : list id :=
+  match fuel with
+  | 0 => acc
+  | S f => dgrow s f (fold_left Dag.addl (flat_map (fun x => Dag.parents s x ++ Dag.children s x) acc) acc)
+  end.
+Definition dcomp (s : Dag.dag) (r : id) : list id := dgrow s (Dag.dsize s) [r].
+
+Definition dphi (s : Dag.dag) (r : id) (x : id) : id := Dag.dsize s + index_of x (dcomp s r).
+
+(* DAGNode.copy() / copy.deepcopy(dagnode) *)
+Definition ddeep_copy (s : Dag.dag) (r : id) : Dag.dag :=
+  let c := dcomp s r in
+  let n := Dag.dsize s in
+  let src := fun k => nth_error c (k - n) in
+  Dag.mkdag (n + length c)
+    (fun k => if Nat.ltb k n then Dag.parents s k else
+              match src k with Some x => map (dphi s r) (Dag.parents s x) | None => [] end)
+    (fun k => if Nat.ltb k n then Dag.children s k else
+              match src k with Some x => map (dphi s r) (Dag.children s x) | None => [] end)
+    (fun k => if Nat.ltb k n then Dag.dname s k else
+              match src k with Some x => Dag.dname s x | None => [] end).
+
+(* copy.copy(dagnode): DAGNode.__copy__ is obj.__dict__.update(self.__dict__) as well *)
+Definition dshallow_copy (s : Dag.dag) (x : id) : Dag.dag * id :=
+  let n := Dag.dsize s in
+  (Dag.mkdag (S n) (upd (Dag.parents s) n (Dag.parents s x)) (upd (Dag.children s) n (Dag.children s x))
+             (upd (Dag.dname s) n (Dag.dname s x)), n).
+
+Definition dsk_copy (s : Dag.dag) (start : id) : Dag.dag * id := (ddeep_copy s start, dphi s start start).
+(* dag_to_dict (dag/export.py:85) and dag_to_dataframe (:158) start with dag = dag.copy() *)
+Definition dsk_export (s : Dag.dag) (start : id) : Dag.dag := ddeep_copy s start.
+(* dag_iterator, dag_to_list, dag_to_dot, ancestors / descendants / siblings / go_to: readers *)
+Definition dsk_reader (s : Dag.dag) : Dag.dag := s.
